@@ -13,6 +13,7 @@ mod progen;
 mod reftrace;
 mod rng;
 mod seam;
+mod session;
 mod worker;
 
 use std::sync::Mutex;
